@@ -68,7 +68,7 @@ for it in range(N):
                 elif op == "rebalance": s.rebalance(float(rs.choice([0.0, 0.1, 0.3, -0.1])), k)
                 elif op == "close" and k in s.children: s.close(k)
                 elif op == "transact" and k in s.children and isinstance(s.children[k], SecurityBase): s.children[k].transact(float(rs.choice([10.0, -4.0, 25.0])))
-                elif op == "update": root.update(idx[d])
+                elif op == "update": (root if rs.rand() < 0.5 else s).update(idx[d])        # the whole tree, or a sub-strategy alone (which must not resolve what is pending above it)
                 elif op == "flatten": s.flatten()
                 if rs.rand() < 0.5:
                     evals += 1
